@@ -16,10 +16,10 @@ struct Base {
 }
 
 fn lab(r: &mut Rng) -> String {
-    match r.below(6) { 0 => ":L0".into(), 1 => ":L1".into(), 2 => ":L2".into(), 3 => ":L0:L1".into(), _ => String::new() }
+    match r.below(12) { 0 => ":L0".into(), 1 => ":L1".into(), 2 => ":L2".into(), 3 => ":L0:L1".into(), _ => String::new() }
 }
 fn typ(r: &mut Rng) -> String {
-    match r.below(6) { 0 => ":T0".into(), 1 => ":T1".into(), 2 => ":T0|T1".into(), _ => String::new() }
+    match r.below(9) { 0 => ":T0".into(), 1 => ":T1".into(), 2 => ":T0|T1".into(), _ => String::new() }
 }
 fn arrow(r: &mut Rng, rel: &str) -> String {
     match r.below(4) { 0 => format!("<-[{}]-", rel), 1 => format!("-[{}]-", rel), _ => format!("-[{}]->", rel) }
